@@ -32,6 +32,8 @@ SEQ_CASES = {"quick": 1500, "thorough": 30000}
 BASES = [
     "a", "foo", "", "0", "1", "3", "-1", "+3", "1_0", "٣", "a+1", "a*b", "2*a", "a-1", "min(a,b)", "a,b", "{n}", "{n}+1",
     "f(a)[0]", "...", "...x", "x...", "a#", "a==b", "a=b=c", "(a)", "a.b", "3.5", "0x10", "a-", "a<2", "é", "a**2", "b",
+    # a symbolic axis is only text until a check evaluates it: quotes, braces, backslashes, format specs
+    "a'", "'", '"', 'a"b', "{", "}", "{}", "{n", "n}", "{n!x}", "{n:>3}", "a\\", "\\", "{{n}}", "a;b", "a:b", "f'{a}'", "n'+1", "lambda:0", "a if b else c", "[a]", "a@b", "a$", "`a`", "a!",
 ]
 MODCHARS = "#*_?"
 
@@ -144,7 +146,7 @@ def run_group(rec, mods, base, doc):
         rec.count("groups.vector_compared")
 
 
-TOKENS_FOR_SEQ = ["a", "b", "#a", "*v", "*#v", "#*v", "...", "_", "_x", "3", "#3", "d=3", "a+1", "#a+1", "{n}", "?a", "*?v", "1", "foo", "rows=a", "a,b", "a#", "**v", "__", "*3", "_3", "...x", "min(a,b)"]
+TOKENS_FOR_SEQ = ["a", "b", "#a", "*v", "*#v", "#*v", "...", "_", "_x", "3", "#3", "d=3", "a+1", "#a+1", "{n}", "?a", "*?v", "1", "foo", "rows=a", "a,b", "a#", "**v", "__", "*3", "_3", "...x", "min(a,b)", "n'", "{", "a\\", '"', "{n!x}", "}"]
 WS = [" ", "  ", "\t", "\n", " \n\t ", "\r\n", "   "]
 
 
